@@ -33,6 +33,7 @@ def run(rep, tier):
     from . import c07
     c07.point_kernel(rep, F, rule="R15.5")
     arc_length_laws(rep, F)
+    deprecated_twins(rep, F)
 
 
 def table(F, fn, loop_bound=1):
@@ -340,3 +341,131 @@ def arc_length_laws(rep, F):
             n_ok += 1
             rep.ok("R15.6", "arc:%s[%d evaluations]" % (name, k))
     rep.floor("R15.6", "interpolatable line types", n_ok, 2)
+
+
+def deprecated_twins(rep, F):
+    """R15.7: the older twins LineInterpolatePoint::line_interpolate_point and LineLocatePoint::line_locate_point (Line, LineString of 4
+    coordinates = three segments) on simple witness lines, through the extracted path tables: the interpolated point is the point at arc
+    length clamp(r) * length, and locating that point gives r back."""
+    import math
+    from ..numeval import NumEval
+    from ..evalterm import NoModel, Enum
+    rep.rule("R15.7", "line_interpolate_point / line_locate_point (Line; LineString of three segments) on simple witness lines: interpolate(r) is the point at arc length clamp(r)*length and locate(interpolate(r)) = r")
+    GT = "geo_types::geometry::"
+    LS = GT + "line_string::LineString"
+
+    def vec(items):
+        return ("call", "vec!", (("array", tuple(items)),))
+    lines2 = [[(0.0, 0.0), (3.0, 4.0)], [(1.0, 5.0), (1.0, -3.0)], [(-2.0, 1.0), (6.0, 1.0)]]
+    lines4 = [[(0.0, 0.0), (4.0, 0.0), (4.0, 1.0), (4.0, 6.0)], [(0.0, 0.0), (3.0, 4.0), (6.0, 0.0), (9.0, 4.0)], [(5.0, 5.0), (5.0, 0.0), (0.0, 0.0), (-3.0, -4.0)]]
+    ratios = (-0.5, 0.0, 0.3, 0.55, 0.7, 1.0, 1.5)
+
+    def seglen(a, b):
+        return math.hypot(b[0] - a[0], b[1] - a[1])
+
+    def ref_point(cs, r):
+        r = min(1.0, max(0.0, r))
+        lens = [seglen(cs[i], cs[i + 1]) for i in range(len(cs) - 1)]
+        s_ = r * sum(lens)
+        for i, l in enumerate(lens):
+            if s_ <= l + 1e-12:
+                t = s_ / l
+                return (cs[i][0] + (cs[i + 1][0] - cs[i][0]) * t, cs[i][1] + (cs[i + 1][1] - cs[i][1]) * t)
+            s_ -= l
+        return cs[-1]
+
+    class Ev(NumEval):
+        def call(self, t):
+            m = t[1].rsplit("::", 1)[-1]
+            a = t[2]
+            if m in ("euclidean_length", "length") and len(a) >= 1:
+                g = self.ev(a[0])
+                if isinstance(g, dict) and "start" in g:
+                    return math.hypot(g["end"]["x"] - g["start"]["x"], g["end"]["y"] - g["start"]["y"])
+                if isinstance(g, dict) and "0" in g and isinstance(g["0"], list):
+                    c = g["0"]
+                    return sum(math.hypot(c[i + 1]["x"] - c[i]["x"], c[i + 1]["y"] - c[i]["y"]) for i in range(len(c) - 1))
+            if m in ("euclidean_distance", "distance") and len(a) >= 2:
+                def xy(v):
+                    v = self.ev(v)
+                    while isinstance(v, dict) and "0" in v and "x" not in v:
+                        v = v["0"]
+                    return v
+                p_, q_ = xy(a[-2]), xy(a[-1])
+                if isinstance(p_, dict) and isinstance(q_, dict) and "x" in p_ and "x" in q_:
+                    return math.hypot(q_["x"] - p_["x"], q_["y"] - p_["y"])
+            return NumEval.call(self, t)
+
+    def dec_pt(v):
+        if isinstance(v, Enum):
+            if v.variant != "Some":
+                return None
+            v = v.payload[0]
+        while isinstance(v, dict) and "0" in v and "x" not in v:
+            v = v["0"]
+        return (float(v["x"]), float(v["y"]))
+
+    def dec_num(v):
+        if isinstance(v, Enum):
+            if v.variant != "Some":
+                return None
+            v = v.payload[0]
+        return float(v)
+    n_ok = 0
+    for ty, n, wit in (("line::Line", 2, lines2), ("line_string::LineString", 4, lines4)):
+        name = ty.split("::")[-1]
+        arg = ("adt", GT + ty, name, (("opaque", "c0"), ("opaque", "c1"))) if n == 2 else ("adt", LS, name, (vec([("opaque", "c%d" % i) for i in range(n)]),))
+        try:
+            fi = F.impl_method("geo::algorithm::line_interpolate_point::LineInterpolatePoint", r"^%s%s<T>$" % (GT, ty), None, "line_interpolate_point", crates=("geo",))
+            fl = F.impl_method("geo::algorithm::line_locate_point::LineLocatePoint", r"^%s%s<T>$" % (GT, ty), None, "line_locate_point", crates=("geo",))
+            tabs = {}
+            for key, f, extra in (("interpolate", fi, [("opaque", "v")]), ("locate", fl, [("&", ("adt", GT + "point::Point", "Point", (("opaque", "q"),)))])):
+                ex = Symex(F, concrete_iters=True, loop_bound=10, inline_crates=("geo", "geo_types"), max_depth=12, max_paths=20000)
+                ex.resolve_by_receiver = True
+                ex.pure_assign_ops = True
+                tabs[key] = (f, [p for p in ex.run(f, args=[("&", arg)] + extra) if p.kind != "cut"])
+        except (KeyError, Unanalysable) as e:
+            rep.bad("R15.7", "twins:%s:unanalysable" % name, str(e))
+            continue
+        bad = None
+        k = 0
+        try:
+            for cs in wit:
+                env0 = {("opaque", "c%d" % i): {"x": cs[i][0], "y": cs[i][1]} for i in range(n)}
+                for r in ratios:
+                    env = dict(env0)
+                    env[("opaque", "v")] = r
+                    ev = Ev(F, env)
+                    hit = ev.select_path(tabs["interpolate"][1])
+                    if len(hit) != 1 or hit[0].kind != "ret":
+                        bad = "line_interpolate_point(%s, %s) selects %s" % (cs, r, [h.kind for h in hit])
+                        break
+                    got = dec_pt(ev.ev(hit[0].ret))
+                    want = ref_point(cs, r)
+                    k += 1
+                    if got is None or abs(got[0] - want[0]) > 1e-9 or abs(got[1] - want[1]) > 1e-9:
+                        bad = "line_interpolate_point(%s, %s) = %s; the point at that fraction of the length is (%.6g, %.6g)" % (cs, r, got, want[0], want[1])
+                        break
+                    if 0.0 <= r <= 1.0:
+                        env = dict(env0)
+                        env[("opaque", "q")] = {"x": want[0], "y": want[1]}
+                        ev = Ev(F, env)
+                        hit = ev.select_path(tabs["locate"][1])
+                        if len(hit) != 1 or hit[0].kind != "ret":
+                            bad = "line_locate_point(%s, %s) selects %s" % (cs, want, [h.kind for h in hit])
+                            break
+                        lr = dec_num(ev.ev(hit[0].ret))
+                        k += 1
+                        if lr is None or abs(lr - r) > 1e-9:
+                            bad = "line_locate_point(%s, (%.6g, %.6g)) = %s, the point was placed at fraction %s" % (cs, want[0], want[1], lr, r)
+                            break
+                if bad:
+                    break
+        except (NoModel, TypeError, KeyError, ValueError, ZeroDivisionError) as e:
+            bad = "cannot be evaluated: %s" % e
+        if bad:
+            rep.bad("R15.7", "twins:%s" % name, "%s: %s" % (name, bad), where=fi.loc())
+        else:
+            n_ok += 1
+            rep.ok("R15.7", "twins:%s[%d evaluations]" % (name, k))
+    rep.floor("R15.7", "twin tables", n_ok, 2)
